@@ -180,11 +180,14 @@ func (s *swamp) applyPatchExpiredOne(treasureObj treasure.Treasure, ops []msgpac
 	// still re-encodes the body deterministically; that is fine.
 	treasureObj.SetContentByteArray(guardID, wrapMsgpackBody(out))
 	applyPatchMeta(treasureObj, guardID, meta, false)
+	// Read the post-patch expiration before Save: with a write interval of 0
+	// Save hands the guard back for the immediate write, and a concurrent
+	// delete may already have cleared the field when Save returns.
+	entry.ExpiredAt = expirationTimeAsTime(treasureObj.GetExpirationTime())
 	treasureObj.Save(guardID)
 
 	entry.Status = PatchStatusPatched
 	entry.NewMsgpack = out
-	entry.ExpiredAt = expirationTimeAsTime(treasureObj.GetExpirationTime())
 	return entry, true
 }
 
